@@ -428,7 +428,7 @@ pub fn run(prog: &Program, args: &[i64], cfg: &EmuConfig) -> EmuResult {
     }
     let stop_idx = cfg.stop_label.as_ref().and_then(|l| prog.labels.get(l).copied());
     let mut snapshot = None;
-    let mut monitor = HeapMonitor::default();
+    let mut monitor = HeapMonitor { enforce_shape: Some(cfg.enforce_shape), ..Default::default() };
     let mut pc = prog.entry;
     let mut violation = None;
     let end: Result<i64, Undefined> = loop {
@@ -475,7 +475,10 @@ pub fn run(prog: &Program, args: &[i64], cfg: &EmuConfig) -> EmuResult {
                     let r = monitor.check(&view, mk, &mut st, fp);
                     m.stats = st;
                     if let Err((k, msg)) = r {
-                        if msg == "heap exhausted" {
+                        if msg == "monitor budget" {
+                                return Err(Stop::Undef(Undefined::Fuel));
+                            }
+                            if msg == "heap exhausted" {
                             if std::env::var("EMU_DEBUG").is_ok() {
                                 eprintln!("heap exhausted in monitor: free={:#x}", m.get(reg_free()).0);
                             }
